@@ -209,6 +209,7 @@ class DictReader:
     def _resolve_reference(
         reference: str,
         variables: MutableMapping[str, V],
+        _seen: tuple[str, ...] = (),
     ) -> V | None:
         # resolves a single reference
         value: V | None = None
@@ -220,8 +221,13 @@ class DictReader:
 
         reference = re.sub(pattern=r"(^\$|\[.+$)", repl="", string=reference)  # remove leading $ or trailing [
 
+        if reference in _seen:
+            # the reference chain leads back to itself (e.g. `b $c; c $b;`): not resolvable
+            return None
+
         if reference in variables:
             value = variables[reference]  # singular value or field
+            _seen = (*_seen, reference)
 
             ref_changed_through_recursion = False
             while re.search(
@@ -229,7 +235,11 @@ class DictReader:
             ):  # resolve nested references, if existing, through recursion
                 reference = str(value)
                 ref_changed_through_recursion = True
-                value = DictReader._resolve_reference(reference=reference, variables=variables)  # recursion
+                value = DictReader._resolve_reference(
+                    reference=reference,
+                    variables=variables,
+                    _seen=_seen,
+                )  # recursion
             if ref_changed_through_recursion:
                 reference = re.sub(pattern=r"(^\$|\[.+$)", repl="", string=reference)  # remove leading $ or trailing [
             if indexing:
